@@ -39,7 +39,7 @@ THEOREMS = ["Mesa.Steps." + t for t in (
     "C05_nested_calls_are_ordinary_calls", "C05_nested_run_is_ordinary_calls",
     "C05_wrapper_delegates_to_step_captured_at_init", "C05_rebinding_step_on_the_instance_stops_the_counter",
     "C05_bodies_are_exactly_the_super_chain", "C05_nested_fuel_is_immaterial",
-    "C05_run_model_is_k_step_calls")]
+    "C05_run_model_is_k_step_calls", "C05_instance_history_is_its_own_ops")]
 COUNTS = {"quick": 600, "thorough": 80000}
 EXHAUSTIVE = {"quick": True, "thorough": True}
 TRUSTED = [
